@@ -44,7 +44,8 @@ func init() {
 	// C06.alloc
 	add("c06-alloc-byteslen-weak", "C06.alloc", dd, "func (d *D) TryBytesLen(nBytes int) ([]byte, error) {\n\tif nBytes < 0 {", "func (d *D) TryBytesLen(nBytes int) ([]byte, error) {\n\tif nBytes < -1 {", "TryBytesLen")
 	add("c06-alloc-byteslen-noclamp", "C06.alloc", dd, "\t\tif maxBytes := bitsLeft/8 + 1; maxBytes > 0 && int64(nBytes) > maxBytes {\n\t\t\tnBytes = int(maxBytes)\n\t\t}", "\t\tif maxBytes := bitsLeft/8 + 1; maxBytes > 0 && int64(nBytes) > maxBytes {\n\t\t\t_ = maxBytes\n\t\t}", "TryBytesLen|clamp")
-	add("c06-alloc-bytesrange-noclamp", "C06.alloc", dd, "\t\tif maxBytes := (bLen-bitOffset)/8 + 1; maxBytes > 0 && int64(nBytes) > maxBytes {\n\t\t\tnBytes = int(maxBytes)\n\t\t}", "\t\tif maxBytes := (bLen-bitOffset)/8 + 1; maxBytes > 0 && int64(nBytes) > maxBytes {\n\t\t\t_ = maxBytes\n\t\t}", "TryBytesRange|clamp")
+	add("c06-alloc-bytesrange-noclamp", "C06.alloc", dd, "\t\tif maxBytes := max((bLen-bitOffset)/8, 0) + 1; int64(nBytes) > maxBytes {\n\t\t\tnBytes = int(maxBytes)\n\t\t}", "\t\tif maxBytes := max((bLen-bitOffset)/8, 0) + 1; int64(nBytes) > maxBytes {\n\t\t\t_ = maxBytes\n\t\t}", "TryBytesRange|clamp")
+	add("c06-alloc-bytesrange-clamp-skipped", "C06.alloc", dd, "\t\tif maxBytes := max((bLen-bitOffset)/8, 0) + 1; int64(nBytes) > maxBytes {", "\t\tif maxBytes := (bLen-bitOffset)/8 + 1; maxBytes > 0 && int64(nBytes) > maxBytes {", "TryBytesRange|clamp")
 	// C06.bounds: index, slice bound, constant index
 	add("c06-bounds-mp4-stco", "C06.bounds", "format/mp4/mp4.go", "\t\t\t\t\t\t\t\tif stcoIndex >= len(t.stco) {", "\t\t\t\t\t\t\t\tif stcoIndex > len(t.stco) {", "t.stco")
 	add("c06-bounds-slice-jpeg", "C06.bounds", "format/jpeg/jpeg.go", "if offset > uint64(len(extendedXMP)) {", "if offset > uint64(len(extendedXMP))+1 {", "slice#")
